@@ -58,7 +58,12 @@ def arm_loop(text):
     a = find_code(body, HDR)
     if not a:
         raise AnchorLost("execute_function_match_arms: the loop over fxn_def.code.match_arms not found")
-    b = re.sub(r"//[^\n]*", "", body[a.start():body.rindex("}")]).replace("\r", "")
+    # the unit starts after the exhaustiveness pre-check (a `#[cfg(..)] { .. }` block), so that declarations hoisted out of the loop are seen
+    start = a.start()
+    mc = find_code(body, r"#\[cfg\(all\(feature\s*=\s*\"kind_annotation\",\s*feature\s*=\s*\"enum\"\)\)\]\s*\{")
+    if mc and mc.end() < a.start():
+        start = match_brace(body, mc.end() - 1)
+    b = re.sub(r"//[^\n]*", "", body[start:body.rindex("}")]).replace("\r", "")
     b = strip_macro_stmts(b, "trace_println")
     mh = re.search(HDR, b)
     if mh.group(1):     # `.rev()`: the same loop over descending positions
@@ -142,3 +147,116 @@ def arity_fn(text):
         raise AnchorLost("execute_user_function: the statements before the broadcast attempt are no longer just the arity guard")
     return ("fn execute_user_function_arity_guard(fxn_def: &FunctionDefinition, input_arg_values: &Vec<Value>, p: &mut Interpreter) -> (res: Option<()>)\n"
             "  ensures res.is_some() <==> input_arg_values@.len() == fxn_def.input@.len(), final(p).log@ == old(p).log@,\n{\n" + b + "\n  Some(())\n}\n")
+
+
+# ---------------------------------------------------------------------------------------------------------------------
+# `match` expressions: the wildcard / exhaustiveness guard at the top of match_expression
+def default_features(cargo_toml_text):
+    """closure of the `default` feature of a crate's [features] table (entries of other crates, `a/b`, are ignored)"""
+    sec = cargo_toml_text[cargo_toml_text.index("[features]"):]
+    nxt = re.search(r"^\[(?!features)", sec[1:], re.M)
+    if nxt:
+        sec = sec[:nxt.start() + 1]
+    table = {m.group(1): re.findall(r'"([^"]+)"', m.group(2)) for m in re.finditer(r"^([\w-]+)\s*=\s*\[(.*?)\]", sec, re.S | re.M)}
+    on, todo = set(), ["default"]
+    while todo:
+        f = todo.pop()
+        if f in on or "/" in f:
+            continue
+        on.add(f)
+        todo += table.get(f, [])
+    return on
+
+
+def _eval_cfg(expr, on):
+    expr = expr.strip()
+    m = re.fullmatch(r'feature\s*=\s*"([^"]+)"', expr)
+    if m:
+        return m.group(1) in on
+    for op in ("not", "all", "any"):
+        m = re.fullmatch(r"%s\s*\((.*)\)" % op, expr, re.S)
+        if m:
+            parts = [_eval_cfg(x, on) for x in vmat._split_top_commas(m.group(1)) if x.strip()]
+            return (not parts[0]) if op == "not" else (all(parts) if op == "all" else any(parts))
+    raise AnchorLost("cfg predicate outside the evaluator: " + expr)
+
+
+def apply_cfg(b, on):
+    """evaluate `#[cfg(..)]` attributes on statements / blocks for the feature set `on`: a true attribute is removed, a false one
+    removes the attributed block `{..}`, `if .. {..} [else ..]` chain or statement up to `;`"""
+    while True:
+        m = re.search(r"#\[cfg\(", b)
+        if not m:
+            return b
+        e = match_brace(b, m.end() - 1, "(", ")")
+        if b[e] != "]":
+            raise AnchorLost("malformed cfg attribute")
+        keep = _eval_cfg(b[m.end():e - 1], on)
+        k = e + 1
+        if keep:
+            b = b[:m.start()] + b[k:]
+            continue
+        while b[k] in " \t\r\n":
+            k += 1
+        if b[k] == "{":
+            end = match_brace(b, k)
+        elif re.match(r"if\b", b[k:]):
+            end = k
+            while True:
+                end = match_brace(b, b.index("{", end))
+                mm = re.match(r"\s*else\s*(if\b)?", b[end:])
+                if not mm:
+                    break
+                end = end + mm.end() - (2 if mm.group(1) else 0)
+        else:
+            depth, end = 0, k
+            while end < len(b) and not (b[end] == ";" and depth == 0):
+                depth += b[end] in "([{"
+                depth -= b[end] in ")]}"
+                end += 1
+            end += 1
+        b = b[:m.start()] + b[end:]
+
+
+GUARD_MODEL = """
+pub struct MatchExpression { pub id: u64 }
+pub struct Value { pub id: u64 }
+pub struct Environment { pub id: u64 }
+pub struct Interpreter { pub id: u64 }
+pub struct Name { pub id: u64 }
+pub struct PatternText { pub id: u64 }
+pub uninterp spec fn has_wildcard(m: MatchExpression) -> bool;                                   // some arm's pattern is `*`
+pub uninterp spec fn missing(m: MatchExpression, source: Value) -> Option<(Name, Vec<PatternText>)>;   // infer_missing_enum_match_patterns
+pub uninterp spec fn kinds_ok(m: MatchExpression, env: Environment) -> Option<()>;
+// `match_expr.arms.iter().any(|arm| matches!(arm.pattern, Pattern::Wildcard))`
+#[verifier::external_body]
+pub fn has_wildcard_arm(m: &MatchExpression) -> (b: bool) ensures b == has_wildcard(*m), { unimplemented!() }
+#[verifier::external_body]
+pub fn infer_missing_enum_match_patterns(m: &MatchExpression, source: &Value, p: &Interpreter) -> (o: Option<(Name, Vec<PatternText>)>)
+  ensures o == missing(*m, *source),
+{ unimplemented!() }
+#[verifier::external_body]
+pub fn validate_match_arm_output_kinds(m: &MatchExpression, env: &Environment, p: &Interpreter) -> (o: Option<()>)
+  ensures o == kinds_ok(*m, *env),
+{ unimplemented!() }
+"""
+
+
+def guard_fn(text, features):
+    """the statement `if !match_expr.arms.iter().any(|arm| matches!(arm.pattern, Pattern::Wildcard)) { .. }` of `match_expression`
+    (src/interpreter/src/expressions.rs), with the `#[cfg(..)]` attributes inside it evaluated for the crate's default feature set:
+    the `any(..)` expression -> `has_wildcard_arm(match_expr)`, `return Err(..)` -> `return None`, `Vec::is_empty` kept."""
+    sig, body = extract_fn(text, "match_expression")
+    m = find_code(body, r"if\s+!\s*match_expr\s*\.arms\s*\.iter\(\)\s*\.any\(\s*\|arm\|\s*matches!\(arm\.pattern,\s*Pattern::Wildcard\)\s*\)\s*\{")
+    if not m:
+        raise AnchorLost("match_expression: the wildcard test `if !match_expr.arms.iter().any(..)` not found")
+    e = match_brace(body, m.end() - 1)
+    b = re.sub(r"//[^\n]*", "", body[m.start():e]).replace("\r", "")
+    b = re.sub(r"^if\s+!\s*match_expr\s*\.arms\s*\.iter\(\)\s*\.any\(\s*\|arm\|\s*matches!\(arm\.pattern,\s*Pattern::Wildcard\)\s*\)", "if !has_wildcard_arm(match_expr)", b)
+    b = apply_cfg(b, features)
+    b = err_to_none(b)
+    if re.search(r"\b(Ok|Err|MechError|cfg)\b", b):
+        raise AnchorLost("match_expression: the exhaustiveness guard is outside the transcription rules")
+    return ("fn match_exhaustiveness_guard(match_expr: &MatchExpression, detached_source: Value, base_env: Environment, p: &Interpreter) -> (res: Option<()>)\n"
+            "  ensures res.is_some() ==> (has_wildcard(*match_expr) || (missing(*match_expr, detached_source) is Some && missing(*match_expr, detached_source).unwrap().1@.len() == 0)),\n"
+            "    has_wildcard(*match_expr) ==> res.is_some(),\n{\n" + b + "\n  Some(())\n}\n")
